@@ -464,6 +464,13 @@ func startTree(g *core.G) *core.N {
 		o.Singles = 0.15
 	}
 	n, _ := g.Tree(o)
+	if g.Chance(0.05) {
+		// a root with a single neighbour, as the parser delivers for "((a,b),c)r;" read from "(((a,b),c))r;"
+		old := n
+		old.E = core.NewE()
+		old.E.Len = g.Length(&o)
+		n = &core.N{Name: "rt", Kids: []*core.N{old}}
+	}
 	uniqueInnerNames(n)
 	core.NumberEdges(n)
 	return n
